@@ -1,6 +1,8 @@
 package lc
 
 import (
+	"time"
+
 	"tsim/kernel"
 	"tsim/node"
 )
@@ -10,6 +12,10 @@ import (
 func replicaCheck(rec *kernel.Rec, host *node.Chain, cfg map[string]int64, world string) {
 	if host == nil || rec.Focus != "C14" {
 		return
+	}
+	if rec.WallClockProbe() {
+		// let the real clock move on, so that a replica executes the recorded blocks at another wall-clock time
+		time.Sleep(1600 * time.Millisecond)
 	}
 	reps, blocks, err := host.CheckReplicas(cfg["keyseed"], nil)
 	if err != nil {
